@@ -4,7 +4,7 @@
    here are the mechanisms the property rests on, for every input. *)
 From Coq Require Import List NArith Bool.
 From Verif Require Import Base.Res Base.Text Gen.GenTokens Model.Lexer Model.ExprParser Proofs.LexerTile Proofs.RespellProofs Proofs.ExprParserProofs Proofs.ExprInstance.
-From Verif Require Model.StParser Model.DeclParser Model.StInstance Proofs.StExprProofs Proofs.StStmtProofs Proofs.StInstanceProofs Proofs.DeclProofs Proofs.DeclInstanceProofs.
+From Verif Require Model.StParser Model.DeclParser Model.StInstance Proofs.StExprProofs Proofs.StStmtProofs Proofs.StInstanceProofs Proofs.DeclProofs Proofs.DeclInstanceProofs Proofs.LibProofs.
 Import ListNotations.
 
 (* every token of token.rs whose spelling contains a letter is matched case-insensitively (table regenerated each run) *)
@@ -90,3 +90,11 @@ Theorem C08_declaration_respelling : forall w00 fb w0 nm (bl : list (DeclProofs.
   StInstance.parse_fbd_tokens (w00 ++ fb :: w0 ++ nm :: DeclProofs.flat_wbs token bl ++ w1 ++ StStmtProofs.flat_l token l ++ w2 ++ en :: w3) =
   StInstance.parse_fbd_tokens (w00' ++ fb' :: w0' ++ nm' :: DeclProofs.flat_wbs token bl' ++ w1' ++ StStmtProofs.flat_l token l' ++ w2' ++ en' :: w3').
 Proof. exact DeclInstanceProofs.parse_fbd_respelled. Qed.
+
+(* two well-formed spellings of a library with the same units are read alike *)
+Theorem C08_library_respelling : forall (l l' : list LibProofs.swu) wend wend',
+  Forall LibProofs.wf_wu l -> StExprProofs.all_triv token StInstance.tok_class wend ->
+  Forall LibProofs.wf_wu l' -> StExprProofs.all_triv token StInstance.tok_class wend' ->
+  map LibProofs.erase_wu l = map LibProofs.erase_wu l' ->
+  StInstance.parse_lib_tokens (LibProofs.flat_lib l ++ wend) = StInstance.parse_lib_tokens (LibProofs.flat_lib l' ++ wend').
+Proof. exact LibProofs.parse_lib_respelled. Qed.
